@@ -181,6 +181,7 @@ func TestC05Retention(t *testing.T) {
 		tr := &tracker{t: t, w: w, c: c, known: known, known2: known2}
 		var literal []*obligation
 		overlappedTouches := 0
+		writerQueuedTouches := 0
 		parkedTouches := 0
 
 		// KLM monitor: remember at which allocation count each key was
@@ -198,6 +199,21 @@ func TestC05Retention(t *testing.T) {
 			c.Add("get", o.ID, inst)
 			devBefore, putsBefore := tr.writesNow()
 			allocBefore := w.St.Alloc.NewBlockCalls
+			if rapid.IntRange(0, 3).Draw(t, "writerQueued") == 0 {
+				// Another client's block-sized upload queues for the write
+				// lock during the read-locked section of this Get: it
+				// allocates between the two sections of a refreshing read.
+				// Verdict point: conservatively the start of the call (the
+				// foreign allocation may follow the placement of the copy).
+				var r lstore.ReadResult
+				if w.WithWriterQueued(func() { r = w.Get(o, inst) }) {
+					writerQueuedTouches++
+				}
+				if r.Found {
+					tr.obl = append(tr.obl, &obligation{o: o, inst: inst, verdict: allocBefore, complete: w.St.Alloc.NewBlockCalls, how: "a successful Get overlapped by another client's upload"})
+				}
+				return
+			}
 			r := w.Get(o, inst)
 			if !r.Found {
 				return
@@ -407,6 +423,7 @@ func TestC05Retention(t *testing.T) {
 		c.ClassIf(tr.literalGaps > 0, "known_finding_shape_excluded")
 		c.ClassIf(tr.literalGaps2 > 0, "known_finding_2_shape_excluded")
 		c.ClassIf(parkedTouches > 0, "findmissing_parked_in_refresh_copy_while_uploads_completed")
+		c.ClassIf(writerQueuedTouches > 0, "get_with_upload_queued_on_write_lock")
 		c.ClassIf(overlappedTouches > 0, "findmissing_waited_for_refresh_lock_while_uploads_rotated")
 		c.ClassIf(slowGets > 0, "slow_get_completed_concurrently_with_other_touches")
 		c.ClassIf(cfg.Old == 0, "old_blocks_zero")
